@@ -4,7 +4,8 @@
    /repo/parser/src/lib.rs, statement for statement.  Definitions only.
 
    The file system is abstract: inside the Section it is given by the
-   functions [canon] (`fs::canonicalize`), [is_dir] (`Path::is_dir`), [read_dir]
+   functions [canon] (`fs::canonicalize`), [is_dir] (`Path::is_dir`), [is_file]
+   (`Path::is_file`), [read_dir]
    (`fs::read_dir`, the entry names in the order the OS returns them), [join]
    (`PathBuf::push` / `Path::join`), [parent] (`PathBuf::pop`), [file_name]
    (`Path::file_name`), [ext_circom] (`Path::extension() == Some("circom")`),
@@ -26,8 +27,9 @@
    * the two `expect`s are [Panic] sites;
    * [d23 = true] gives the code as it was before the repair recorded as
      C19-D23 in known_findings.jsonl (`include_library` pushed the
-     un-canonicalised `lib.path.join(path)`); [d23 = false] is the current
-     code.  The theorems are about [false]; the old behaviour is kept for the
+     un-canonicalised `lib.path.join(path)`; only that statement is switched,
+     the later repairs C02-non-circom-argument and C19-include-unreadable are
+     in both); [d23 = false] is the current code.  The theorems are about [false]; the old behaviour is kept for the
      refutation lemma and for replaying the witness. *)
 Require Model.Base.
 From Coq Require Import ZArith Ascii String.
@@ -57,6 +59,7 @@ Section FileStack.
   Context {path : Type} `{EqDecision path}.
   Variable canon : path -> option path.
   Variable is_dir : path -> bool.
+  Variable is_file : path -> bool.
   Variable read_dir : path -> option (list path).
   Variable join : path -> path -> path.
   Variable parent : path -> path.
@@ -100,7 +103,10 @@ Section FileStack.
     foldl add_library ([], reports) libs.
 
   (* ---- add_files ---- *)
-  Fixpoint add_files (fuel : nat) (paths : list path) (acc : list path * list report)
+  (* [named]: the paths come from the command line (a non-directory is then
+     always an input file); false for the entries of a directory, which are
+     filtered on the `.circom` extension *)
+  Fixpoint add_files (fuel : nat) (named : bool) (paths : list path) (acc : list path * list report)
       : outcome (list path * list report) :=
     match fuel with
     | O => OutOfFuel
@@ -112,10 +118,10 @@ Section FileStack.
            if is_dir p then
              match read_dir p with
              | Some names =>
-               let* acc' := add_files fuel' (map (join p) names) acc in go rest acc'
+               let* acc' := add_files fuel' false (map (join p) names) acc in go rest acc'
              | None => go rest acc
              end
-           else if ext_circom p then
+           else if named || ext_circom p then
              match canon p with
              | Some c => go rest (c :: acc.1, acc.2)
              | None => go rest (acc.1, acc.2 ++ [FileOsError p])
@@ -128,7 +134,7 @@ Section FileStack.
   Definition new (fuel : nat) (paths libs : list path) (reports : list report)
       : outcome (file_stack * list report) :=
     let '(ls, reports) := add_libraries libs reports in
-    let* r := add_files fuel paths ([], reports) in
+    let* r := add_files fuel true paths ([], reports) in
     Ok (FileStack None [] r.1 ls r.1, r.2).
 
   (* ---- include_library: the `for lib in &self.libraries` loop ---- *)
@@ -141,7 +147,9 @@ Section FileStack.
         else
           let libpath := join (lib_path lib) inc in
           match canon libpath with
-          | Some c => Ok (Some (if d23 then libpath else c))
+          | Some c =>
+            if is_file c then Ok (Some (if d23 then libpath else c))
+            else search_libraries d23 inc rest
           | None => search_libraries d23 inc rest
           end
       else
@@ -170,7 +178,9 @@ Section FileStack.
     | Some loc =>
       let location := join loc (inc_path inc) in
       match canon location with
-      | Some p => Ok (if decide (p ∈ black_paths st) then st else push p st, None)
+      | Some p =>
+        if is_file p then Ok (if decide (p ∈ black_paths st) then st else push p st, None)
+        else include_library d23 st inc
       | None => include_library d23 st inc
       end
     end.
@@ -340,12 +350,14 @@ Fixpoint assoc {B} (k : spath) (l : list (spath * B)) : option B :=
 Record fs_data := FsData {
   fs_canon : list (spath * option spath);      (* spelling -> canonical path, None: does not exist *)
   fs_dirs : list (spath * list spath);         (* spellings that are directories, with their entry names *)
+  fs_files : list spath;                       (* canonical paths that are regular files *)
   fs_content : list (spath * file_content spath) }.
 
 Definition d_canon (d : fs_data) (p : spath) : option spath :=
   match assoc p (fs_canon d) with Some r => r | None => None end.
 Definition d_is_dir (d : fs_data) (p : spath) : bool :=
   match assoc p (fs_dirs d) with Some _ => true | None => false end.
+Definition d_is_file (d : fs_data) (p : spath) : bool := bool_decide (p ∈ fs_files d).
 Definition d_read_dir (d : fs_data) (p : spath) : option (list spath) := assoc p (fs_dirs d).
 Definition d_content (d : fs_data) (p : spath) : file_content spath :=
   match assoc p (fs_content d) with Some c => c | None => Unreadable end.
@@ -364,6 +376,6 @@ Definition canonical_paths (d : fs_data) : list spath :=
 Definition dir_fuel : nat := 64.
 
 Definition run_project (d23 : bool) (d : fs_data) (argv libs : list spath) : outcome (parse_state (path:=spath)) :=
-  parse_files (d_canon d) (d_is_dir d) (d_read_dir d) s_join s_parent s_file_name s_ext_circom
+  parse_files (d_canon d) (d_is_dir d) (d_is_file d) (d_read_dir d) s_join s_parent s_file_name s_ext_circom
               s_starts_dot s_has_sep (d_content d) d23 dir_fuel
               (S (length (fs_canon d) + length (canonical_paths d))) argv libs.
